@@ -33,6 +33,8 @@ def resolve(target):
 
 
 def run_one(job):
+    for k, v in job.get('env', {}).items():      # (fresh-process probes: set before the package is first imported)
+        os.environ[k] = v
     fn = resolve(job['target'])
     args = [values.decode(a) for a in job.get('args', [])]
     kwargs = {k: values.decode(v) for k, v in job.get('kwargs', {}).items()}
@@ -133,7 +135,27 @@ def run_isolated(job):
         return {'outcome': 'runner-died', 'stderr': 'isolated child gave no result'}
 
 
+def apply_setup():
+    """Interpreter-wide settings a session variant runs under (PAMQP_VERIF_SETUP, JSON)."""
+    setup = json.loads(os.environ.get('PAMQP_VERIF_SETUP') or '{}')
+    if setup.get('logging') == 'DEBUG':
+        import logging
+        import io
+        logging.basicConfig(level=logging.DEBUG, stream=io.StringIO())
+        logging.getLogger('pamqp').setLevel(logging.DEBUG)
+    elif setup.get('logging') == 'disabled':
+        import logging
+        logging.disable(logging.CRITICAL)
+    if setup.get('decimal_prec'):
+        import decimal
+        decimal.getcontext().prec = int(setup['decimal_prec'])
+    if setup.get('warnings') == 'error':
+        import warnings
+        warnings.simplefilter('error')
+
+
 def main():
+    apply_setup()
     for line in sys.stdin:
         line = line.strip()
         if not line:
